@@ -44,7 +44,12 @@ def run_harness_sets(names, tier="quick"):
         for h in harnesses:
             cmd += ["--harness", h]
         try:
-            p = subprocess.run(cmd, cwd=tmp, env=env, capture_output=True, text=True, timeout=int(os.environ.get("VERIF_KANI_TIMEOUT", "1500")))
+            def _limit():
+                import resource
+                lim = int(os.environ.get("VERIF_KANI_MEM_GB", "20")) * (1 << 30)
+                resource.setrlimit(resource.RLIMIT_AS, (lim, lim))
+            p = subprocess.run(cmd, cwd=tmp, env=env, capture_output=True, text=True, preexec_fn=_limit,
+                               timeout=int(os.environ.get("VERIF_KANI_TIMEOUT", "1500")))
             out = p.stdout + "\n" + p.stderr
         except subprocess.TimeoutExpired as e:
             out = (e.stdout or "") + "\nTIMEOUT"
@@ -61,6 +66,7 @@ def run_harness_sets(names, tier="quick"):
     failed_desc = {}
     cover_ok = {}
     by_thread = {}
+    tool_fail = set()
     for ln in out.split("\n"):
         m = re.match(r"(?:Thread (\d+): )?Checking harness (\S+?)\.\.\.", ln)
         if m:
@@ -81,9 +87,11 @@ def run_harness_sets(names, tier="quick"):
         m = re.match(r"Failed Checks: (.*)", ln)
         if m and cur:
             failed_desc.setdefault(cur, []).append(m.group(1))
+        if cur and re.search(r"CBMC failed|out of memory|CBMC timed out|Killed", ln):
+            tool_fail.add(cur)
         m = re.match(r"VERIFICATION:- (\w+)", ln)
         if m and cur:
-            verdict[cur] = m.group(1)
+            verdict[cur] = m.group(1) if cur not in tool_fail else "TOOL-FAILURE"
     for n in names:
         st = SETS[n]
         res = {"name": n, "status": "ok", "failures": [], "checks": 0, "checks_ok": 0, "wall_s": round(wall, 1),
